@@ -49,9 +49,28 @@ func (m Map) validate() error {
 				errs = append(errs, errorx.Invalid("Chord %s Extends %s not found", c.Name, x))
 			}
 		}
+		if m.extendsCyclically(c) {
+			errs = append(errs, errorx.Invalid("Chord %s Extends cyclically", c.Name))
+		}
 	}
 
 	return errors.Join(errs...)
+}
+
+func (m Map) extendsCyclically(c Chord) bool {
+	seen := map[string]bool{c.Name: true}
+	for x := c.Extends; x != ""; {
+		p, ok := m.chords[x]
+		if !ok {
+			return false
+		}
+		if seen[p.Name] {
+			return true
+		}
+		seen[p.Name] = true
+		x = p.Extends
+	}
+	return false
 }
 
 func (m Map) GetChord(nameOrDisplay string) (Chord, bool) {
